@@ -220,6 +220,9 @@ func (g *tfGen) refText(attr, kind string, admits bool) string {
 		if d.Kind == "resource" && len(d.Attrs) > 0 && g.r.Intn(2) == 0 {
 			txt += "." + d.Attrs[g.r.Intn(len(d.Attrs))]
 		}
+		if d.Kind == "local" && len(d.Attrs) > 0 && g.r.Intn(2) == 0 {
+			txt += "." + d.Attrs[g.r.Intn(len(d.Attrs))] // an element nested in the local's value
+		}
 	} else {
 		txt = pick(g.r, []string{"var.missing", "local.nope", "res.aws.ghost", "other.thing"})
 	}
@@ -421,7 +424,14 @@ func genTf(r *rand.Rand) *TfConfig {
 				val = g.anyExprWithRefs("local:"+name, 1)
 			}
 			fmt.Fprintf(&g.sb, "  %s = %s\n", name, val)
-			g.decls = append(g.decls, TfDecl{Addr: "local." + name, Kind: "local"})
+			var sub []string
+			switch val {
+			case `{ k = "v", n = 1 }`:
+				sub = []string{"k", "n"}
+			case `{ k = ["a", "b", "c"], m = { q = "z", r = "y" } }`:
+				sub = []string{"k", "m", "m.q", "m.r"}
+			}
+			g.decls = append(g.decls, TfDecl{Addr: "local." + name, Kind: "local", Attrs: sub})
 		}
 		g.sb.WriteString("}\n")
 	}
